@@ -9,6 +9,8 @@
 //	conv     toInt toFloat toString toRune toChar toByteSlice toRuneSlice to{Int,Float,String,Bool}Slice
 //	misuse   wrong argument count / type: an error, never a crash
 //	conv_overlap  the conversion builtins while other calls of them are in progress (other environments, shared environment, script goroutines)
+//	tostring_fmt  toString of values whose default formatting goes through Format / Error / String methods
+//	result_history  the builtins again after the address of an earlier result was taken and written through (in the sandbox child)
 //	tables   every entry of env.Packages / env.PackageTypes (exhaustive)
 package c19
 
@@ -41,4 +43,8 @@ func TestC19(t *testing.T) {
 	h.Run(c, "conv_overlap", c.N(500, 4000), genOverlap, func(tc OverlapCase, o *h.Obs) *h.Fail {
 		return overlapOracle(tc, o, c.InReplay()) // a replayed case (--replay, regression replays) is repeated more often
 	})
+	c.Rule("tostring_fmt: toString of a value whose default formatting is decided by methods - host-bound values of struct, pointer, integer, float, string, byte-slice, slice and map kinds implementing fmt.Formatter, error, fmt.Stringer, fmt.GoStringer and combinations (value and pointer receivers, nil receivers, panicking methods, embedding), bundled types bound by the host (*big.Float/*big.Int/*big.Rat, time, net), and values the script makes through bundled constructors (math/big NewFloat/NewInt/NewRat/ParseFloat and Quo/Mul/Add/SetPrec of their results, errors.New, toDuration, time, net, net/url, regexp, os, bytes); the value reaches toString as variable, directly, through a list element, a map entry or a function result, or (1 in 8) as an element of a list or map argument; expected: fmt.Sprint of the very value; non-trivial = the value has at least one formatting method")
+	h.Run(c, "tostring_fmt", c.N(8000, 40000), genFmt, fmtOracle)
+	c.Rule("result_history: 1-3 steps, each taking the address of the result of a builtin call (len, toInt, toFloat, toString, toRune, toChar, typeOf, kindOf, keys, range, the typed-slice and byte/rune slice forms; valid arguments, lengths and integers mostly in the cached small range) directly - &f(a), &(f(a)), &g() of a script function returning it, &(true ? f(a) : nil), &f(a)[i] for list results; control: bound to a name first - and storing another value of the same kind through the pointer (*p = w, or a host function writing through it); then every call is evaluated again in the same run and in 1-2 later runs of the same process in fresh environments: every answer is the Go answer. Executed in the sandbox child, never in the test process; a child in which a history failed is discarded and the history repeated alone in a fresh one")
+	h.Run(c, "result_history", c.N(4000, 20000), genResHist, histOracle)
 }
